@@ -141,15 +141,21 @@ pub fn c02_snapshot_race() {
     let d1 = n.dbs.clone(); let d2 = n.dbs.clone();
     // (the S3 strategies load tombstones as live keys - recorded under C18 - so the remove variant is for the disk strategy)
     let removes = if strategy == 0 { vsym::any_bool("client-removes") } else { false };
-    vsym::tag(if removes { "client-removes" } else { "client-writes" });
-    let t1 = vsym::spawn(move || is_ok(&process_request(if removes { "remove k" } else { "set k w" }, &d1, &mut c)));
+    // the client may also remove the key and write it again (a key that was never stored restarts at version 0: the re-created
+    // key can carry the very version the snapshot copied)
+    let recreates = if strategy == 0 && !removes && pre == 2 { vsym::any_bool("client-removes-then-writes") } else { false };
+    vsym::tag(if removes { "client-removes" } else if recreates { "client-removes-then-writes" } else { "client-writes" });
+    let t1 = vsym::spawn(move || {
+        if recreates { process_request("remove k", &d1, &mut c); }
+        is_ok(&process_request(if removes { "remove k" } else { "set k w" }, &d1, &mut c))
+    });
     let t2 = vsym::spawn(move || { snapshot_all_pendding_dbs(&d2); true });
     let acked = vsym::join(t1); vsym::join(t2);
     vsym::check("snapshot-race.write-acknowledged", acked);
     let (mut r, mut rrx) = db_client(&n.dbs, "d");
     let seen = match process_request("get k", &n.dbs, &mut r) { Response::Value { key: _, value, version: _ } => value, _ => String::from("?") };
     vsym::check("snapshot-race.acknowledged-write-survives-in-memory", seen == (if removes { "<Empty>" } else { "w" }));
-    if !removes { if let Some(b) = &before { vsym::check("snapshot-race.version-not-reverted", peek(&n.dbs, "d", "k").unwrap().version > b.version); } }
+    if !removes && !recreates { if let Some(b) = &before { vsym::check("snapshot-race.version-not-reverted", peek(&n.dbs, "d", "k").unwrap().version > b.version); } }
     // the next snapshot must pick the write up: restart and read
     process_request(if strategy == 1 { "snapshot true" } else { "snapshot false" }, &n.dbs, &mut admin); snapshot_all_pendding_dbs(&n.dbs);
     let n2 = restart_node("n1");
